@@ -150,6 +150,18 @@ func main() {
 			u = tglib.NewRanUeContext(supi, int64(num(s.Rig, "ran_id", 1)), nea, nia)
 			u.AuthenticationSubs = tglib.GetAuthSubscription(c.K, c.OPC, c.OP)
 		}
+		{
+			// what a context advertises for every pair of algorithms it can be set to (the registrations
+			// below only use the pairs the emulator's NAS layer implements)
+			tab := map[string]interface{}{}
+			for a := 0; a < 4; a++ {
+				for b := 0; b < 4; b++ {
+					x := tglib.NewRanUeContext(supi, 1, uint8(a), uint8(b))
+					tab[fmt.Sprintf("%d/%d", a, b)] = hex.EncodeToString(x.GetUESecurityCapability().Buffer)
+				}
+			}
+			w.Log(world.Event{Ev: "captable", Info: tab})
+		}
 		logCtx := func(i int) {
 			w.Log(world.Event{Ev: "ctx", I: i, UE: i, Info: map[string]interface{}{"supi": u.Supi, "ran_ue_ngap_id": u.RanUeNgapId, "amf_ue_ngap_id": u.AmfUeNgapId,
 				"kamf": hex.EncodeToString(u.Kamf), "knasint": hex.EncodeToString(u.KnasInt[:]), "knasenc": hex.EncodeToString(u.KnasEnc[:]), "ul_count": u.ULCount.Get(), "dl_count": u.DLCount.Get()}})
